@@ -187,12 +187,21 @@ def full_corpus(tmp: Path, tier: str, n_generated=None):
     from .common import seed
     from .specgen import programs
     progs = hand_corpus()
-    sg, _ = programs(tmp, n=3, depth=2, violating=False)
-    valid = [p for p in sg if not p["violations"] and not p["degenerate"]]
-    valid.sort(key=lambda p: json.dumps(p["code"], sort_keys=True))
-    k = n_generated if n_generated is not None else (150 if tier == "quick" else 1500)
     rng = random.Random(seed() * 31 + 5)
-    pick = valid if len(valid) <= k else rng.sample(valid, k)
+    k = n_generated if n_generated is not None else (200 if tier == "quick" else 1500)
+
+    def valid_of(recs):
+        out = [p for p in recs if not p["violations"] and not p["degenerate"]]
+        out.sort(key=lambda p: json.dumps(p["code"], sort_keys=True))
+        return out
+    if tier == "quick":
+        # base alphabet to 3 instructions + extended alphabet (all basic types, overrides, nested chunked structs, ...) to 2
+        a = valid_of(programs(tmp, n=3, depth=2, violating=False)[0])
+        b = valid_of(programs(tmp, n=2, depth=2, violating=False, extended=True)[0])
+        pick = (a if len(a) <= k // 2 else rng.sample(a, k // 2)) + (b if len(b) <= k - k // 2 else rng.sample(b, k - k // 2))
+    else:
+        a = valid_of(programs(tmp, n=3, depth=2, violating=False, extended=True)[0])
+        pick = a if len(a) <= k else rng.sample(a, k)
     for i, p in enumerate(pick):
         progs.append({"name": f"G{i:04d}", "kind": "struct", "dir": "net", "family": "", "action": "", "code": p["code"], "rt": True, "gen": True})
     return progs
